@@ -459,6 +459,14 @@ func (w *world) peerOp(kind string, e opEnv, m protocol.Message, unch bool, opLi
 	case "exit":
 		pan = vhlib.Recover(func() { peer.VerifExit(hp.p) })
 		hp.live = false
+		// the departure events go to the torrent (not under study here)
+		for len(hp.torEvent) > 0 {
+			<-hp.torEvent
+		}
+		hp.p.VerifFlushEvents()
+		for len(hp.torEvent) > 0 {
+			<-hp.torEvent
+		}
 	}
 	post := hp.p.VerifState()
 	if err != nil || pan != "" {
@@ -488,9 +496,10 @@ func (w *world) peerOp(kind string, e opEnv, m protocol.Message, unch bool, opLi
 			a = "small"
 		}
 	}
-	return fmt.Sprintf("%s r=%s m=[%s] a=%s | u=%s i=%s h=%s t=%s q=%d:%d n=%d | told=%s pend=%d",
+	items, _ := queuedItems(hp.p)
+	return fmt.Sprintf("%s r=%s m=[%s] a=%s | u=%s i=%s h=%s t=%s q=%d:%d x=%d n=%d | told=%s pend=%d",
 		tag, res, strings.Join(ms, ";"), a, b01(post.AmUnchoking), b01(post.Interested), b01(post.HasInfo),
-		b01(post.UploadTicking), len(post.Upload), qhash(post.Upload), peer.NumUnchoking(),
+		b01(post.UploadTicking), len(post.Upload), qhash(post.Upload), items, peer.NumUnchoking(),
 		b01(hp.o.told), hp.o.npending)
 }
 
